@@ -49,7 +49,7 @@ theorem assemble_wf (subs : List Ex) (p : Pt) (st : Nat → List Cell)
     · exact ih
     · exact wf_empty w
   | bounded w lo hi ih => simp only [Ex.assemble]; exact node _ _ ih
-  | unary f w ih => exact ih
+  | unary f w ih => simp only [Ex.assemble]; exact node _ _ ih
   | shift w off _ => exact wf_empty _
   | ptile id v pe n _ _ => exact wf_empty _
 
